@@ -1,10 +1,14 @@
 use std::fmt;
 
-use crate::version::zerv::Zerv;
+use crate::version::zerv::{
+    Zerv,
+    zerv_ron_options,
+};
 
 impl fmt::Display for Zerv {
     fn fmt(&self, f: &mut fmt::Formatter<'_>) -> fmt::Result {
-        match ron::ser::to_string_pretty(self, ron::ser::PrettyConfig::default()) {
+        // Written with the options documents are read with: whatever was read can be written again
+        match zerv_ron_options().to_string_pretty(self, ron::ser::PrettyConfig::default()) {
             Ok(ron_string) => write!(f, "{ron_string}"),
             Err(_) => write!(f, "Error serializing Zerv to RON"),
         }
